@@ -85,4 +85,206 @@ theorem moveTree_get (fs : Fs) (pf pt : CPath) (e : Entry) (hleaf : Leaf fs pf) 
       simp only [Fs.del, List.mem_filter, ne_eq, decide_eq_true_eq] at hx
       exact hx.2
 
+
+theorem walk_lift2 (fs fs' : Fs) (R : (CPath → List Name → Bool → Res) → (CPath → List Name → Bool → Res) → Prop)
+    (h0 : R (fun _ _ _ => .err .eloop) (fun _ _ _ => .err .eloop))
+    (hstep : ∀ k k', R k k' → R (walkAux fs k) (walkAux fs' k')) : ∀ fuel, R (walk fs fuel) (walk fs' fuel) := by
+  intro fuel
+  induction fuel with
+  | zero => exact hstep _ _ h0
+  | succ fuel ih => exact hstep _ _ ih
+
+/-- a resolution that found something is not disturbed by an entry made where nothing was -/
+theorem walk_found_stable (fs : Fs) (P : CPath) (x : Entry) (hP : P ≠ []) (hnone : fs.get P = none) (fuel : Nat) :
+    ∀ (cur : CPath) (comps : List Name) (fo : Bool) (p : CPath) (e : Entry),
+    walk fs fuel cur comps fo = .found p e → walk (fs.set P x) fuel cur comps fo = .found p e := by
+  apply walk_lift2 fs (fs.set P x) (fun k k' => ∀ (cur : CPath) (comps : List Name) (fo : Bool) (p : CPath) (e : Entry),
+    k cur comps fo = .found p e → k' cur comps fo = .found p e)
+  · intro _ _ _ _ _ h; simp at h
+  · intro k k' hk cur comps
+    induction comps generalizing cur with
+    | nil => intro fo p e h; simpa [walkAux] using h
+    | cons c rest ih =>
+      intro fo p e h
+      rw [walkAux_cons] at h ⊢
+      by_cases h1 : c = [46]
+      · rw [if_pos h1] at h ⊢; exact ih _ _ _ _ h
+      · rw [if_neg h1] at h ⊢
+        by_cases h2 : c = dotdot
+        · rw [if_pos h2] at h ⊢; exact ih _ _ _ _ h
+        · rw [if_neg h2] at h ⊢
+          rw [get_set fs P _ x hP]
+          cases hg : fs.get (cur ++ [c]) with
+          | none =>
+            simp only [hg] at h
+            by_cases hr : rest = [] <;> simp [hr] at h
+          | some e0 =>
+            simp only [hg] at h
+            have hne : cur ++ [c] ≠ P := by intro heq; rw [heq, hnone] at hg; simp at hg
+            rw [if_neg hne]
+            cases e0 with
+            | dir => (try dsimp only at h); (try dsimp only); exact ih _ _ _ _ h
+            | file d => (try dsimp only at h); (try dsimp only); exact h
+            | link t =>
+              (try dsimp only at h); (try dsimp only)
+              by_cases hr : rest = [] ∧ fo = false
+              · rw [if_pos hr] at h ⊢; exact h
+              · rw [if_neg hr] at h ⊢; exact hk _ _ _ _ _ h
+
+theorem resolve_found_stable (fs : Fs) (P : CPath) (x : Entry) (hP : P ≠ []) (hnone : fs.get P = none)
+    (path : Bytes) (fo : Bool) (p : CPath) (e : Entry) (h : resolve fs path fo = .found p e) :
+    resolve (fs.set P x) path fo = .found p e := by
+  unfold resolve at h ⊢
+  by_cases hne : path = []
+  · simp [hne] at h
+  · rw [if_neg hne] at h ⊢
+    exact walk_found_stable fs P x hP hnone _ _ _ _ _ _ h
+
+theorem resolve_found_nondir (fs : Fs) (path : Bytes) (fo : Bool) (p : CPath) (e : Entry)
+    (h : resolve fs path fo = .found p e) (he : e ≠ .dir) : p ≠ [] ∧ fs.get p = some e := by
+  unfold resolve at h
+  by_cases hne : path = []
+  · simp [hne] at h
+  · rw [if_neg hne] at h
+    exact walk_found_nondir fs _ _ _ _ _ _ h he
+
+theorem resolve_missing_get (fs : Fs) (path : Bytes) (fo : Bool) (pa : CPath) (n : Name)
+    (h : resolve fs path fo = .missing pa n) : fs.get (pa ++ [n]) = none := by
+  unfold resolve at h
+  by_cases hne : path = []
+  · simp [hne] at h
+  · rw [if_neg hne] at h
+    exact walk_missing_get fs _ _ _ _ _ _ h
+
+/-- the outcome of a successful rename(2) of a file or symbolic link in a well-formed world -/
+theorem sysRename_exact (fs fs' : Fs) (frm to : Bytes) (hwf : WF fs) (pf : CPath) (e : Entry)
+    (hsrc : resolve fs frm false = .found pf e) (he : e ≠ .dir)
+    (h : sysRename fs frm to = (fs', .ok ())) :
+    ∃ pt, pt ≠ [] ∧ fs'.get pt = some e ∧ (pt ≠ pf → fs'.get pf = none) ∧
+      (∀ q, q ≠ pt → q ≠ pf → fs'.get q = fs.get q) ∧
+      (resolve fs to false = .missing pt.dropLast (pt.getLast?.getD []) ∨ ∃ et, resolve fs to false = .found pt et) := by
+  obtain ⟨hpf, hgpf⟩ := resolve_found_nondir fs frm false pf e hsrc he
+  have hleaf := leaf_of_nondir fs hwf pf e hpf hgpf he
+  unfold sysRename at h
+  rw [hsrc] at h
+  simp only [hpf, if_false] at h
+  cases hrt : resolve fs to false with
+  | err e0 => simp [hrt] at h
+  | missing pa n =>
+    simp only [hrt, he, false_and, if_false, Prod.mk.injEq, and_true] at h
+    subst h
+    have hnone := resolve_missing_get fs to false pa n hrt
+    have hne : pa ++ [n] ≠ pf := by intro heq; rw [heq, hgpf] at hnone; simp at hnone
+    refine ⟨pa ++ [n], by simp, ?_, ?_, ?_, Or.inl (by simp)⟩
+    · rw [moveTree_get fs pf _ e hleaf hgpf hpf (by simp) hne]; simp
+    · intro _
+      rw [moveTree_get fs pf _ e hleaf hgpf hpf (by simp) hne]
+      have : ¬ pf = pa ++ [n] := fun hh => hne hh.symm
+      simp [this]
+    · intro q hq1 hq2
+      rw [moveTree_get fs pf _ e hleaf hgpf hpf (by simp) hne]
+      simp [hq1, hq2]
+  | found pt et =>
+    simp only [hrt] at h
+    by_cases h1 : pt = pf
+    · simp only [h1, if_true, Prod.mk.injEq, and_true] at h
+      subst h
+      subst h1
+      exact ⟨pt, hpf, hgpf, fun hh => absurd rfl hh, fun _ _ _ => rfl, Or.inr ⟨et, rfl⟩⟩
+    · rw [if_neg h1, if_neg he] at h
+      by_cases h3 : et = .dir
+      · rw [if_pos h3] at h; simp at h
+      · rw [if_neg h3] at h
+        simp only [Prod.mk.injEq, and_true] at h
+        subst h
+        obtain ⟨hpt, _⟩ := resolve_found_nondir fs to false pt et hrt h3
+        refine ⟨pt, hpt, ?_, ?_, ?_, Or.inr ⟨et, rfl⟩⟩
+        · rw [moveTree_get fs pf pt e hleaf hgpf hpf hpt h1]; simp
+        · intro _
+          rw [moveTree_get fs pf pt e hleaf hgpf hpf hpt h1]
+          have : ¬ pf = pt := fun hh => h1 hh.symm
+          simp [this]
+        · intro q hq1 hq2
+          rw [moveTree_get fs pf pt e hleaf hgpf hpf hpt h1]
+          simp [hq1, hq2]
+
+
+theorem del_set_ents (fs : Fs) (P : CPath) (x : Entry) : ((fs.set P x).del P).ents = (fs.del P).ents := by
+  simp [Fs.set, Fs.del, List.filter_filter]
+
+theorem moveTree_set (fs : Fs) (P pf : CPath) (x : Entry) : (fs.set P x).moveTree pf P = fs.moveTree pf P := by
+  unfold Fs.moveTree
+  rw [del_set_ents]
+
+/-- File::rename of a file or symbolic link that reports success, in a well-formed world: the entry now
+    sits at the destination `pt`, the source path is gone, nothing else changed -/
+theorem fileRename_exact (fs : Fs) (frm to : Bytes) (fie : Bool) (hwf : WF fs) (pf : CPath) (e : Entry)
+    (hsrc : resolve fs frm false = .found pf e) (he : e ≠ .dir)
+    (h : (fileRename fs frm to fie).2 = true) :
+    ∃ pt, pt ≠ [] ∧ (fileRename fs frm to fie).1.get pt = some e ∧
+      (pt ≠ pf → (fileRename fs frm to fie).1.get pf = none) ∧
+      (∀ q, q ≠ pt → q ≠ pf → (fileRename fs frm to fie).1.get q = fs.get q) := by
+  unfold fileRename at h ⊢
+  cases fie with
+  | false =>
+    simp only [Bool.false_eq_true, if_false] at h ⊢
+    cases hr : sysRename fs frm to with
+    | mk fs1 r =>
+      rw [hr] at h
+      cases r with
+      | error _ => simp [isOk] at h
+      | ok u =>
+        obtain ⟨pt, h1, h2, h3, h4, _⟩ := sysRename_exact fs fs1 frm to hwf pf e hsrc he hr
+        exact ⟨pt, h1, h2, h3, h4⟩
+  | true =>
+    simp only [if_true] at h ⊢
+    by_cases hs : isOk (sysStat fs frm false) = false
+    · rw [if_pos hs] at h; simp at h
+    · rw [if_neg hs] at h ⊢
+      cases ho : sysOpen fs to { acc := .rdonly, creat := true, excl := true } with
+      | mk fs1 r =>
+        rw [ho] at h
+        cases r with
+        | error _ => simp at h
+        | ok fd =>
+          simp only at h ⊢
+          unfold sysOpen at ho
+          simp only [and_self, if_true] at ho
+          cases hres : resolve fs to false with
+          | found p e0 => simp [hres] at ho
+          | err e0 => simp [hres] at ho
+          | missing pa n =>
+            simp only [hres, Prod.mk.injEq] at ho
+            obtain ⟨hfs1, _⟩ := ho
+            subst hfs1
+            have hPne := append_singleton_ne_nil pa n
+            have hnone := resolve_missing_get fs to false pa n hres
+            obtain ⟨hpf, hgpf⟩ := resolve_found_nondir fs frm false pf e hsrc he
+            have hne : pa ++ [n] ≠ pf := by intro heq; rw [heq, hgpf] at hnone; simp at hnone
+            have hleaf := leaf_of_nondir fs hwf pf e hpf hgpf he
+            -- in the world with the placeholder: the source resolves as before, the destination to the placeholder
+            have hsrc1 := resolve_found_stable fs (pa ++ [n]) (.file []) hPne hnone frm false pf e hsrc
+            have hto1 : resolve (fs.set (pa ++ [n]) (.file [])) to false = .found (pa ++ [n]) (.file []) := by
+              unfold resolve at hres ⊢
+              by_cases hne0 : to = []
+              · simp [hne0] at hres
+              · rw [if_neg hne0] at hres ⊢
+                exact walk_after_create fs (.file []) (by intro t; simp) _ _ _ false false _ _ (Or.inl rfl) hres
+            have hren : sysRename (fs.set (pa ++ [n]) (.file [])) frm to = (fs.moveTree pf (pa ++ [n]), .ok ()) := by
+              unfold sysRename
+              rw [hsrc1]
+              simp only [hpf, if_false, hto1, hne, he, moveTree_set]
+              simp
+            rw [hren]
+            simp only
+            refine ⟨pa ++ [n], hPne, ?_, ?_, ?_⟩
+            · rw [moveTree_get fs pf _ e hleaf hgpf hpf hPne hne]; simp
+            · intro _
+              rw [moveTree_get fs pf _ e hleaf hgpf hpf hPne hne]
+              have : ¬ pf = pa ++ [n] := fun hh => hne hh.symm
+              simp [this]
+            · intro q hq1 hq2
+              rw [moveTree_get fs pf _ e hleaf hgpf hpf hPne hne]
+              simp [hq1, hq2]
+
 end Nstd.Path
